@@ -275,3 +275,5 @@ def s4(I):
     I.check('amount_grows_by_funds', smt.Eq(p.get('lp_asset').get('amount'), amt + add))
     I.check('owner_unchanged', p.get('receiver') == 'alice' and p.get('open') is True)
     I.check('contract_holds_the_lp', smt.Eq(b.get(FM, LP1), pre.get(FM, LP1) + add))
+
+from . import lockdep   # noqa: E402,F401  (cross-contract locked-deposit obligations registered for this property)
